@@ -185,6 +185,10 @@ def make_values(ctx, case):
         sort, lo, hi = case.domain(sid)
         name = 'n%d_%s' % (sid, case.nums[sid].kind)
         vals[sid] = ctx.int(name, lo, hi) if sort == 'int' else ctx.real(name, lo, hi)
+        if case.nums[sid].kind in ('time', 'dur', 'ptime') and sort == 'real':
+            # a delay or duration is 0 or at least 1/1000 of its unit: units.py snaps raw times below 2**-17 ms to 0,
+            # so "a wait of 5 ns" and "no wait" are the same setting (nearest millisecond), not two event sequences
+            ctx.assume(z3.Or(vals[sid].e == 0, vals[sid].e >= z3.RealVal('1/1000')))
     return vals
 
 
